@@ -9,6 +9,7 @@ import (
 	"bytes"
 	"encoding/json"
 	"fmt"
+	"regexp"
 	"sort"
 	"strconv"
 	"strings"
@@ -17,14 +18,15 @@ import (
 )
 
 type apiPools struct {
-	jsonDocs    [][]byte // valid file documents (some with a client ID, some without)
-	jsonIDs     []string
-	x9E, x9A    [][]byte // valid uploads, variable length, EBCDIC / ASCII
-	badBodies   []namedBytes
-	headers     []namedBytes // bodies for update-header (valid and not)
-	cashLts     []namedBytes // bodies for add-cash-letter
-	clIDs       []string
-	mistypeDocs [][]byte // one forward and one return document, sources of the mistyped-member bodies
+	zonedReturnDoc []byte   // a return file whose dates (addendum B's payor bank business date among them) carry a zone offset
+	jsonDocs       [][]byte // valid file documents (some with a client ID, some without)
+	jsonIDs        []string
+	x9E, x9A       [][]byte // valid uploads, variable length, EBCDIC / ASCII
+	badBodies      []namedBytes
+	headers        []namedBytes // bodies for update-header (valid and not)
+	cashLts        []namedBytes // bodies for add-cash-letter
+	clIDs          []string
+	mistypeDocs    [][]byte // one forward and one return document, sources of the mistyped-member bodies
 }
 
 type namedBytes struct {
@@ -36,7 +38,8 @@ type namedBytes struct {
 func buildPools(r rng, n int) *apiPools {
 	p := &apiPools{}
 	for i := 0; len(p.jsonDocs) < n && i < 10*n; i++ {
-		f, err := genFile(r, genOpts{maxCL: 2, maxBundles: 2, maxItems: 2, mutateP: 40})
+		// every third document carries its dates with a zone offset and a time of day (a later day in UTC)
+		f, err := genFile(r, genOpts{maxCL: 2, maxBundles: 2, maxItems: 2, mutateP: 40, zones: len(p.jsonDocs)%3 == 2})
 		if err != nil {
 			continue
 		}
@@ -205,6 +208,27 @@ func buildPools(r rng, n int) *apiPools {
 			js, _ := json.Marshal(f)
 			p.mistypeDocs = append(p.mistypeDocs, js)
 			break
+		}
+	}
+	for tries := 0; tries < 40 && p.zonedReturnDoc == nil; tries++ {
+		f, err := genFile(r, genOpts{maxCL: 1, maxBundles: 1, maxItems: 2, mutateP: 20, kind: 2, zones: true})
+		if err != nil {
+			continue
+		}
+		has := false
+		for _, b := range f.CashLetters[0].Bundles {
+			for _, rd := range b.Returns {
+				if len(rd.ReturnDetailAddendumB) > 0 {
+					has = true
+				}
+			}
+		}
+		if has {
+			f.ID = ""
+			js, _ := json.Marshal(f)
+			// the zone offsets are written into the document text (not left to the library's own encoder)
+			js = regexp.MustCompile(`("payorBankBusinessDate":")(\d{4}-\d\d-\d\d)T[^"]*"`).ReplaceAll(js, []byte(`${1}${2}T22:30:00-05:00"`))
+			p.zonedReturnDoc = js
 		}
 	}
 	doc := p.jsonDocs[0]
@@ -712,12 +736,19 @@ func runHistoryReal(g *apiGen, reg *registry, n int, fixed []*apiReq) []apiStep 
 	// files whose whole history consists of payloads that are valid on their own: for those the rendered
 	// contents must decode back to the stored records
 	clean := map[string]bool{}
+	lastID := "nope-0"
 	for i := 0; i < n || i < len(fixed); i++ {
 		var q *apiReq
 		if i < len(fixed) {
 			q = fixed[i]
 		} else {
 			q = g.next()
+		}
+		if q.ID == "@last" {
+			// directed histories address the file the server created last (v2 draws the ID)
+			cp := *q
+			cp.ID = lastID
+			q = &cp
 		}
 		st := apiStep{q: q, before: env.storeSnap()}
 		taken := map[string]bool{}
@@ -762,8 +793,11 @@ func runHistoryReal(g *apiGen, reg *registry, n int, fixed []*apiReq) []apiStep 
 		st.line = env.modelLine(q, st.r)
 		st.store = env.storeDump()
 		if (q.Kind == "c1" || q.Kind == "c2") && st.r.Status == 201 {
-			if id := createdID(st.r); id != "zz-none" && idSafe(id) && g != nil {
-				g.ids = append(g.ids, id)
+			if id := createdID(st.r); id != "zz-none" && idSafe(id) {
+				lastID = id
+				if g != nil {
+					g.ids = append(g.ids, id)
+				}
 			}
 		}
 		steps = append(steps, st)
@@ -863,6 +897,12 @@ func runAPI(cfg *config, prop string) *Report {
 				directed = append(directed, directedHist{frb, reqs})
 			}
 		}
+		// a return file with zoned dates created through v2 WITHOUT being JSON-encoded in the answer, then only read
+		if pools.zonedReturnDoc != nil {
+			reqs := []*apiReq{{Kind: "c2", Body: pools.zonedReturnDoc, CT: "application/json", Accept: "text/plain", Src: "clean"},
+				{Kind: "cont", ID: "@last"}, {Kind: "get", ID: "@last"}, {Kind: "cont", ID: "@last"}, {Kind: "list"}, {Kind: "cont", ID: "@last"}, {Kind: "val", ID: "@last"}, {Kind: "get", ID: "@last"}}
+			directed = append([]directedHist{{false, reqs}}, directed...)
+		}
 		// a file whose rendering fails late (after kilobytes of output), read in turn with a file that renders: no
 		// answer may carry anything of the failed rendering
 		if bad := pick("cashletter-view-count-mismatch", nil); bad != nil && len(pools.jsonIDs) >= 2 && pools.jsonIDs[0] != "" && pools.jsonIDs[1] != "" {
@@ -875,8 +915,8 @@ func runAPI(cfg *config, prop string) *Report {
 			reqs = append(reqs, &apiReq{Kind: "get", ID: b}, &apiReq{Kind: "val", ID: a}, &apiReq{Kind: "cont", ID: b})
 			directed = append([]directedHist{{false, reqs}}, directed...)
 		}
-		if cfg.tier != "thorough" && len(directed) > 9 {
-			directed = directed[:9]
+		if cfg.tier != "thorough" && len(directed) > 10 {
+			directed = directed[:10]
 		}
 		nHist += len(directed)
 	}
